@@ -67,7 +67,12 @@ RULE = ("exhaustive: every history of <=3 batches of <=2 individuals from 4 univ
 EXHAUSTIVE = {"quick": False, "thorough": True}
 TIME_BUDGET = {"quick": 55, "thorough": 840}
 MIN_CASES = 5000
-TRUSTED = ["bisect.bisect_right (C implementation) runs the loop of Lib/bisect.py that Core/Archive.lean transcribes "
+TRUSTED = ["translator tie: the renderer harness/py2lean_c08.py (its docstring states every rendering rule: methods as state-passing definitions, "
+           "exceptions as Option, for / break / continue / for-else as G8.forLoop, Python index arithmetic in Int, deepcopy as the model's copy parameter, "
+           "bisect_right as Archive.bisectRight, rich comparisons / dominates as the C01 model) and lean/DeapModel/Core/GenPreludeC08.lean are trusted; 9 methods of "
+           "HallOfFame / ParetoFront are regenerated from the current source on every run and kernel-checked equal to Core/Archive.lean (GenEq/C08.lean.tmpl, 10 theorems, "
+           "for every state with len(keys) = len(items)); __init__ (keyword default) and __str__ are refused and listed",
+           "bisect.bisect_right (C implementation) runs the loop of Lib/bisect.py that Core/Archive.lean transcribes "
            "(binary search; proved equal to the linear scan on the always-ascending key list: C08L.bisectRight_eq)",
            "copy.deepcopy: in the pure model (Core/Archive.lean) the deep copy is an object with a fresh id and the same genome/fitness; in the "
            "heap-level model (Core/ArchiveHeap.lean) it is Heap.clone, the model of copy.deepcopy with DEAP's hooks proved faithful and disjoint for C16 "
@@ -109,6 +114,27 @@ BASE = 1000000
 # similarity operators: name -> (reflexive, symmetric, equivalence)
 SIM_PROPS = {"eq": (True, True, True), "fit": (True, True, True), "always": (True, True, True),
              "never": (False, True, False), "lt": (False, False, False)}
+
+
+def translate(repo):
+    """translator tie (lib._translated_obligations): Lean definitions regenerated from `repo`'s current deap/tools/support.py
+    (HallOfFame / ParetoFront) + the committed theorems `Gen08.<Class>_<method> = <model>` of lean/DeapModel/GenEq/C08.lean.tmpl"""
+    from props import c08_translate
+    import json
+    import os
+    import lib
+    tr = c08_translate.translate(repo)
+    try:
+        os.makedirs(os.path.join(lib.OUT, "evidence"), exist_ok=True)
+        with open(os.path.join(lib.OUT, "evidence", "C08.translated.json"), "w") as fh:
+            json.dump({"definitions": len(tr["definitions"]), "theorems": len(tr["theorems"]),
+                       "refused": len(tr["refused"]), "problems": tr["problems"],
+                       "methods": [dict(name=n, status=st, detail=d) for n, st, d in tr.get("table", [])],
+                       "theorem_names": tr["theorems"]}, fh, indent=1)
+            fh.write("\n")
+    except OSError:
+        pass
+    return tr
 
 
 def sim_props(name):
